@@ -23,7 +23,7 @@ Definition item_mtus (sidx : nat) (pr : option nat) (it : nat * asentry) : list 
   (match item_peer sidx pr it with
    | Some p => [pe_mtu p]
    | None => if negb (ae_imtu (snd it) =? 0) && negb (item_shortcut sidx it) then [ae_imtu (snd it)] else []
-   end) ++ [ae_mtu (snd it) mod 65536].
+   end) ++ [N.min (ae_mtu (snd it)) 65535].
 Definition item_ifs (sidx : nat) (pr : option nat) (it : nat * asentry) : list iface :=
   let hf := item_hf sidx pr it in
   (if negb (hf_eg hf =? 0) then [(ae_ia (snd it), hf_eg hf)] else [])
